@@ -1,4 +1,5 @@
 import XmppModel.Model.SendLts
+import XmppModel.Model.Encoder
 /-!
 # The kinds of transmit calls of session.go over the send LTS — property C05 (round G)
 
@@ -71,5 +72,51 @@ def run {α : Type} (p : Prog α) (s : St α) : List Act → St α
     match step p s a with
     | some s' => run p s' as
     | none => run p s as
+
+/-! ### what one iteration of the serve loop writes (session.go `handleInputStream`, after the
+round E fixes of the serve loop)
+
+The handler writes through `responseChecker` → `deferWriter` → `lockWriteCloser`.  The
+`lockWriteCloser` counts the nesting of the tokens the output ACCEPTED (`depth`) and remembers
+a refused token (`refused`); the `responseChecker` notes a response (`wroteResp`) only for an
+accepted token.  After the handler has returned nil:
+
+* `w.abandoned()`: a refused token or `depth ≠ 0` ⇒ the iteration returns `errOutputBroken`
+  BEFORE the automatic reply: nothing is written after an element the handler left open, `Serve`
+  ends the session;
+* otherwise, for a get/set IQ the handler did not answer, the automatic reply is written through
+  the same writer.
+
+`reply` is the list of accepted tokens (the encoder never accepts an end tag without its start,
+so "`depth ≠ 0`" is `depthAfter 0 reply ≠ some 0`). -/
+
+open XmppModel.Xml XmppModel.Encoder in
+/-- `responseChecker.EncodeToken`: a start token at level < 1 that is an IQ of type result/error
+carrying the id of the request -/
+def wroteResp (id : String) : Int → List Tok → Bool
+  | _, [] => false
+  | lvl, .start n as :: ts =>
+    let r := getIDTyp as 0 none false "" ""
+    (decide (lvl < 1) && kindName .iq n && r.2.1 == id && (r.2.2 == "result" || r.2.2 == "error"))
+      || wroteResp id (lvl + 1) ts
+  | lvl, .stop _ :: ts => wroteResp id (lvl - 1) ts
+  | lvl, _ :: ts => wroteResp id lvl ts
+
+open XmppModel.Xml in
+/-- the handler left the output in the middle of an element (`deferWriter.abandoned`) -/
+def abandoned (reply : List Tok) (refused : Bool) : Bool := refused || depthAfter 0 reply != some 0
+
+open XmppModel.Xml in
+/-- tokens of one serve iteration and whether it ends the session (`errOutputBroken`) -/
+def serveIter (needsResp : Bool) (id : String) (reply : List Tok) (refused : Bool) (auto : List Tok) :
+    List Tok × Bool :=
+  if abandoned reply refused then (reply, true)
+  else if needsResp && !wroteResp id 0 reply then (reply ++ auto, false)
+  else (reply, false)
+
+open XmppModel.Xml in
+/-- the serve loop before that rule: the automatic reply is written whenever it is due -/
+def serveIterNoCheck (needsResp : Bool) (id : String) (reply : List Tok) (auto : List Tok) : List Tok :=
+  if needsResp && !wroteResp id 0 reply then reply ++ auto else reply
 
 end XmppModel.SendKinds
